@@ -26,6 +26,8 @@ pub enum Act {
     SpendOldest,
     /// the producer mints an NFT (Bound/Normal/Bound triple) to itself
     NftCreate,
+    /// same, depositing the whole input so that the triple is the transaction's last outputs
+    NftCreateNoChange,
     Empty,
 }
 
@@ -58,14 +60,15 @@ fn build_tx(p: &mut Prod, act: &Act, ts: u64) -> Option<Transaction> {
             let s = p.ledger.unspent_of(&k2.public).into_iter().filter(|s| s.block_id + g >= h && s.amount > 100).min_by_key(|s| (s.block_id, s.tx_ordinal, s.slip_index))?;
             Some(make_tx(&[s.clone()], &[(k1.public, s.amount)], &k2, ts, b"old"))
         }
-        Act::NftCreate => {
+        Act::NftCreate | Act::NftCreateNoChange => {
             let me = p.node.key;
             let s = p.ledger.unspent_of(&me.public).into_iter().filter(|s| s.block_id + g > h + 1 && s.slip_type == SlipType::Normal && s.amount > 10_000).min_by_key(|s| s.amount)?;
             let w = p.node.wallet.clone();
             let tip = p.tip_id;
+            let deposit = if *act == Act::NftCreateNoChange { s.amount } else { 7_000 };
             match run(async move {
                 let mut w = w.write().await;
-                w.create_bound_transaction(s.amount, s.block_id, s.tx_ordinal, s.slip_index as u64, 7_000, vec![1, 2, 3], &me.public, None, tip, g, "art".to_string()).await
+                w.create_bound_transaction(s.amount, s.block_id, s.tx_ordinal, s.slip_index as u64, deposit, vec![1, 2, 3], &me.public, None, tip, g, "art".to_string()).await
             }) {
                 Outcome::Done(Ok(t)) => Some(t),
                 _ => None,
@@ -262,7 +265,7 @@ pub fn run_history(g: u64, steps: &[Step], rep: &mut Report) {
 }
 
 pub fn histories(tier: &Tier) -> Vec<(u64, Vec<Step>)> {
-    let acts = vec![Act::Pay(0), Act::Pay(6_000), Act::PayTwo(0), Act::PayTwo(6_000), Act::Dust(30, 6_000), Act::Dust(30, 0), Act::SpendOldest, Act::NftCreate, Act::Empty];
+    let acts = vec![Act::Pay(0), Act::Pay(6_000), Act::PayTwo(0), Act::PayTwo(6_000), Act::Dust(30, 6_000), Act::Dust(30, 0), Act::SpendOldest, Act::NftCreate, Act::NftCreateNoChange, Act::Empty];
     let mut v = vec![];
     for g in [3u64, 4, 5] {
         if g == 5 && !tier.thorough {
@@ -279,7 +282,7 @@ pub fn histories(tier: &Tier) -> Vec<(u64, Vec<Step>)> {
                     v.push((g, s.clone()));
                     if tier.thorough || g == 3 {
                         for pos2 in (pos + 1)..n {
-                            for a2 in [Act::SpendOldest, Act::Dust(30, 6_000), Act::NftCreate, Act::PayTwo(fee)] {
+                            for a2 in [Act::SpendOldest, Act::Dust(30, 6_000), Act::NftCreate, Act::NftCreateNoChange, Act::PayTwo(fee)] {
                                 let mut s2 = s.clone();
                                 s2[pos2].act = a2;
                                 v.push((g, s2));
